@@ -437,7 +437,7 @@ class Interp:
                 raise Unsupported(f'base class {b!r} of {s.name}')
         if not bases:
             bases = [self.builtins['object']]
-        cf = Frame(f.func, f.globs, f.closure)
+        cf = Frame(f.func, f.globs, f if f.func is not None else f.closure)      # a class in a function body: methods see that function's locals
         cf.cls_ns = {'__qualname__': s.name, '__module__': f.globs.get('__name__')}
         cf.locals = cf.cls_ns
         self.exec_block(s.body, cf)
